@@ -25,6 +25,8 @@ import EPV.Lemmas.Blake
 import EPV.Lemmas.BlakeFields
 import EPV.Tactics
 
+import EPV.Lemmas.Bridge.DetonTactics
+
 set_option linter.all false
 
 open EPV EPV.Gen EPV.Spec.Blake EPV.Blake
@@ -41,16 +43,8 @@ theorem init3_rejects (p : BlakeInit3.P) : BlakeInit3.outcome p = .raise "ValueE
 theorem initDefault_accepts_iff (p : BlakeInitDefault.P) :
     BlakeInitDefault.outcome p = .ok
       ↔ DocumentedProblem p.geometry p.ref_density p.cavity_radius p.pressure_scale := by
-  constructor
-  · intro h
-    unfold BlakeInitDefault.outcome at h
-    epv_walk (simp only [epv_cond, DocumentedProblem] at *; exact ⟨‹_›, ‹_›, ‹_›, ‹_›⟩)
-  · rintro ⟨h0, h1, h2, h3⟩
-    have c0 : BlakeInitDefault.c0 p := by simp only [epv_cond]; exact h0
-    have c1 : BlakeInitDefault.c1 p := by simp only [epv_cond]; exact h1
-    have c2 : BlakeInitDefault.c2 p := by simp only [epv_cond]; exact h2
-    have c3 : BlakeInitDefault.c3 p := by simp only [epv_cond]; exact h3
-    simp only [epv_tree, c0, c1, c2, c3, if_true, ite_self]
+  unfold DocumentedProblem
+  epv_deton_accept_iff
 
 theorem initDefault_raise (p : BlakeInitDefault.P) (h : BlakeInitDefault.outcome p ≠ .ok) :
     BlakeInitDefault.outcome p = .raise "ValueError" := by
@@ -107,17 +101,14 @@ theorem run_wellDefined_partial {p : BlakeFields.P} (h : Admissible p) {r : ℝ}
   have hn := nn_pos h
   have hb := bb_pos h
   have hbarg := bb_arg_pos h
+  have hρ' := hρ.ne'; have ha' := ha.ne'; have h1' := h1.ne'; have hc' := hc.ne'; have hb' := hb.ne'
+  have hr' := hr.ne'; have hn' := hn.ne'
   unfold bb nn cL at *
   simp only [epv_leaf] at hvol
   unfold BlakeFields.L1.WellDefined
-  refine ⟨h1, ?_, hρ.ne', ?_, ha.ne', ?_, hbarg, h1.ne', ?_, ?_, hc.ne', hb.ne', ?_, ?_, hr.ne', hvol⟩
-  · rw [rpow_two_float]; positivity
-  · positivity
-  · positivity
-  · positivity
-  · positivity
-  · positivity
-  · positivity
+  -- every side condition is a fact of the pool, a sign `positivity` sees, or a pool fact up to ring
+  -- normalisation — whatever their order and writing
+  epv_deton_wd_pool []
 
 /-- non-vacuity of the admissibility hypothesis -/
 example : Admissible dflt := dflt_admissible
